@@ -409,6 +409,8 @@ func runScript(ctx *core.Ctx, in c09Input) {
 // ---------------------------------------------------------------------------------------
 // stress: Close / cancel at any point
 
+var hangSeen bool
+
 type stressOut struct {
 	reps      int
 	excess    int // max over repetitions of signals - Adds
@@ -497,6 +499,11 @@ func runStress(ctx *core.Ctx, in c09Input) {
 	if in.Initial <= 0 || in.Max < in.Initial || in.Reps < 1 || in.Adds < 1 {
 		panic("c09: bad stress parameters")
 	}
+	if hangSeen {
+		// one observed hang is the verdict; every further one would cost closeDeadline
+		ctx.Sink.Count("stress/skipped_after_hang")
+		return
+	}
 	rnd := hx.NewRand(uint64(in.Seed))
 	o := stressOut{excess: -1 << 30, runRet: true, closeRet: true}
 	for rep := 0; rep < in.Reps; rep++ {
@@ -522,6 +529,7 @@ func runStress(ctx *core.Ctx, in c09Input) {
 	c.Coq = fmt.Sprintf("CStress %s %s %s %s %s", hx.CoqZ(int64(o.reps)), hx.CoqZ(int64(o.excess)),
 		hx.CoqBool(o.runRet), hx.CoqBool(o.closeRet), hx.CoqBool(o.leak))
 	if !o.closeRet {
+		hangSeen = true
 		c.Direct = 2
 		c.Note = fmt.Sprintf("Close did not return within %v (shape %s, run %d)", closeDeadline, in.Shape, o.reps)
 		ctx.Sink.Count("stress/close_hung")
@@ -770,22 +778,16 @@ func c09Gen(ctx *core.Ctx) {
 		adds, spin int
 		reps       int
 	}
-	shapes := []sh{{"gate", 1, 3000, 1500}, {"conc", 2, 4000, 1500}, {"seq", 3, 0, 4000}, {"gate", 3, 2000, 1000},
-		{"seq", 1, 200, 1500}, {"conc", 3, 400, 1500}, {"cancel", 3, 500, 1500}}
+	shapes := []sh{{"gate", 1, 3000, 5000}, {"conc", 2, 4000, 6000}, {"seq", 3, 0, 12000}, {"gate", 3, 2000, 3000},
+		{"seq", 1, 200, 4000}, {"conc", 3, 400, 5000}, {"cancel", 3, 500, 4000}}
 	mult := 1
 	if ctx.Thorough {
-		mult = 40
+		mult = 25
 	}
-	hung := false
 	for _, s := range shapes {
-		if hung {
-			break
-		}
 		in := c09Input{Kind: "stress", Initial: 100 * ms, Max: 400 * ms, Cap: r.Intn(3), Shape: s.shape, Adds: s.adds,
 			Spin: s.spin, Reps: s.reps * mult, Seed: int64(r.U64() >> 1)}
-		before := ctx.Sink.Dist["stress/close_hung"]
 		c09Run(ctx, in)
-		hung = ctx.Sink.Dist["stress/close_hung"] > before
 	}
 }
 
